@@ -716,7 +716,9 @@ class DAG(BaseDAG[P, RVDAG]):
 
             registered_input_ids: List[str] = []
             # provided *args to the call is <= than input_uxns! because of defaults args
-            for axn, uxn in zip(arg_uxns, input_uxns):  # strict=False
+            # the inputs of a composed DAG can be several usages of one ExecNode (x, x<<1>>) in any order:
+            # register `x` before `x<<1>>`, otherwise the stub of `x` is counted as one more usage and renamed to `x<<1>>`
+            for axn, uxn in sorted(zip(arg_uxns, input_uxns), key=lambda pair: pair[1].id):  # strict=False
                 # a stub that fills the value of an input ExecNode with an arg of the subdag
                 stub: LazyExecNode[[UsageExecNode], UsageExecNode] = LazyExecNode(
                     id_=uxn.id,
